@@ -107,7 +107,10 @@ SSpec == SInit /\ [][SNext]_svars
 \* treat as what they are: a symbolic link is removed, never followed; with --keep everything - contents, kinds,
 \* permissions - stays exactly as the case left it.  The verdict is that of the ending, whatever is left.
 LeftKinds == {"ro-dir-in-act", "ro-file-in-act", "ro-dir-in-tmp", "ro-nested", "ro-act-itself", "no-access-dir",
-              "link-to-dir", "link-to-file", "dangling-link", "link-to-dir-outside"}
+              "link-to-dir", "link-to-file", "dangling-link", "link-to-dir-outside",
+              \* entries a program of the case puts directly into the ROOT directory of the sandbox (beside act/,
+              \* tmp/, result/ ...): the sandbox is its root directory with everything in it
+              "file-in-root", "dir-in-root", "ro-dir-in-root"}
 LeftEndings == {"pass", "fail", "hard"}
 LeftRows == {[kind |-> kd, ending |-> e, keep |-> kp] : kd \in LeftKinds, e \in LeftEndings, kp \in BOOLEAN}
 LeftExit(e) == CASE e = "pass" -> 0 [] e = "fail" -> 32 [] e = "hard" -> 128
